@@ -79,6 +79,10 @@ func vhCondC04(g *vhDigits, depth int, name string) Condition {
 	default:
 		ex = vhBuildC04(g, depth, 2, name+"x")
 	}
+	if g.next(4) == 0 {
+		// a user-defined operator must survive the round trip as well
+		return Cond("k"+name, vhUserOp{"~" + string(rune('0'+code)), "approx"}, ex)
+	}
 	return Cond("k"+name, ComparisonOperator(code), ex)
 }
 
@@ -118,6 +122,9 @@ func vhLeafEq(a, b any) bool {
 		return ok && x == y
 	case ComparisonOperator:
 		y, ok := b.(ComparisonOperator)
+		return ok && x == y
+	case vhUserOp:
+		y, ok := b.(vhUserOp)
 		return ok && x == y
 	}
 	return false
